@@ -293,6 +293,11 @@ Qed.
 
 (* a non-address look-alike cannot reach a handler: handlers are reached only through the SDK router, whose
    wrapper validates first *)
+(* every keeper that takes an authority is constructed with the governance module address *)
+Lemma keepers_get_gov_authority :
+  keeper_authorities_ok gen_keeper_authorities = true /\ String.eqb gen_authaddr_expr authaddr_expected = true.
+Proof. vm_compute. split; reflexivity. Qed.
+
 Lemma reached_only_through_router :
   direct_callers_ok gen_direct_callers = true /\ gen_router_validates_basic = true.
 Proof. vm_compute. split; reflexivity. Qed.
